@@ -7,7 +7,8 @@ progress or capacity is available, call holds the guard across the inner call, a
 is never cleared by a chunk request; recvmax: both v5 dispatchers compare the in-flight id set with
 the negotiated Receive Maximum before reserving a QoS>0 PUBLISH, answer with Pub_3_3_4_7/_9 (0x93)
 and that set is fed only by PUBLISH; wiring of the limits into the middleware. Overlap under every
-interleaving and resumption of reading (liveness) are not decided."""
+interleaving and resumption of reading (liveness) are not decided. recvmax (continued): the count is given back only together with the id (not at PUBREC); wiring (continued): every client create_dispatcher call site hands max_receive to the parameter that becomes the in-flight limit; gate (continued): a streaming flag written as one computed store equals 'PUBLISH raises, chunk keeps, anything else clears' for all inputs.
+"""
 from facts import *
 from disp import *
 from symex import SymEx, term_str_v, term_has, skip_logging
